@@ -21,19 +21,23 @@ checks = {
          "TLC model checking of PathRes + API replay comparing rendered descriptions + git rev-parse as judge on binary runs", "4-C08"),
  "C09": (MC, "Order is the only nondeterminism of Scan: TLC enumerates every permutation; every one is replayed into sizes.Graph and all orders of one graph must agree with each other and with the oracle.",
          "TLC enumeration of all delivery orders + relational API replay + layout/date variants through the binary", "4-C09"),
+ "C11": (MC, "Output.tla lists the 22 metrics with reference values as exact rationals and states the visibility / marker / header / no-problems rules; OutputJudge judges in BigNat arithmetic what the real TableString, HistorySize.JSON and json.MarshalIndent produce for boundary-structured HistorySize vectors x 12 thresholds x styles (value cells judged with Human!Admissible against the JSON v1 value); the float-valued v2 fields and monotonicity in the threshold are compared harness-side.",
+         "boundary vectors rendered by the real renderers and judged by TLC (Output/Human specs, exact arithmetic)", "4-C11"),
  "C12": (MC, "Human.tla states the rounding rules in exact BigNat arithmetic (largest prefix, decimals from the whole part, half-unit bound with both neighbours admissible on ties, >=3 significant digits, <=5 characters, monotone magnitude); HumanMC lets TLC generate the neighbourhoods of every rounding/precision/prefix boundary and checks satisfiability; every value (plus stratified random 64-bit values) is rendered by the real Humaner.FormatNumber and judged by TLC (HumanJudge), neighbours for monotonicity.",
          "TLC-generated boundary values rendered by the real FormatNumber and judged by TLC in exact arithmetic", "4-C12"),
  "C15": (MC, "Config.tla gives the byte grammar of `git config --list -z`, the reference NUL-first reader and the reader as coded; TLC checks on all small listings (value-less keys, values with LF, look-alike sections) that the reader is faithful and foreign entries never leak; every listing is served by a fake git to the real Repository.GetConfig and compared; CLI scenarios with refgroups over all config scopes are judged by TLC (RefsJudge) from git's own listing.",
          "TLC model checking of the listing readers + listings replayed into Repository.GetConfig through a fake git + TLC-judged CLI scenarios", "4-C15"),
+ "C19": (MC, "Output!FootnotesOK (1..k in order of first citation, identical texts share, all cited, all defined) is judged by TLC on synthetic reports with random witness-sharing patterns rendered by the real TableString, and on structurally parsed tables of repositories whose names come from byte classes (quotes, backslash, TAB, LF, CR, ESC, non-UTF-8, '[n]' look-alikes, very long); JSON v1/v2 must parse and keep the key set of the plain-name twin.",
+         "footnote numbering judged by TLC on rendered sharing patterns and on parsed tables of odd-name repositories", "4-C19"),
  "C18": (MC, "Meter.tla models worker, one ticker goroutine per Start, the lock and the ticker-identity test; TLC explores all interleavings (invariants + termination; refuted when the identity test is removed). The real meter is driven with seeded random periods/delays on a -race build, every Write is recorded and the frame sequences are judged (MeterJudge) and validated as behaviours of the model with inferred silent steps (MeterTrace). CLI: identical stdout with and without --progress, final counts = census judged by TLC.",
          "TLC model checking of the meter + TLC trace validation of timing-fuzzed real meter runs + TLC-judged CLI progress counts", "4-C18"),
 }
 pending = {
- "C10": "check under construction in this session", "C11": "check under construction in this session",
+ "C10": "check under construction in this session",
  "C13": "check under construction in this session",
  "C14": "check under construction in this session",
  "C16": "check under construction in this session", "C17": "check under construction in this session",
- "C19": "check under construction in this session",
+
 }
 import os, sys
 sys.path.insert(0, "/verif")
